@@ -175,6 +175,17 @@ def run(res, tier, seed, shard, nshards):
     for how in ("eof", "reset"):
         for with_rc in (False, True):
             jobs.append(("open-callback-reads", how, with_rc, None))
+    # the connection is lost while a keepalive ping is still unanswered, and the reconnect interval is longer than the ping timeout: one
+    # loss, one new connection (the stale ping must not be "timed out" again while the interval runs)
+    for how in ("eof", "reset"):
+        for disp in (None, "rel"):
+            for interval in (1.5, 3.0):
+                jobs.append(("loss-with-ping-unanswered", how, disp, interval))
+    # close() from another thread during the reconnect interval that follows a ping timeout (the old transport is still connected and
+    # its peer silent, so close() spends a while in the closing handshake - longer than the rest of the interval)
+    # (built-in loop: with an external dispatcher the first ping timeout is not reported to on_error, which is what starts the closer here)
+    for frac in (0.2, 0.4, 0.6, 0.8):
+        jobs.append(("close-after-ping-timeout", None, frac))
     # a long outage: hundreds of failed attempts in one run, then service comes back
     for disp in (None, "rel"):
         jobs.append(("outage", 450 if quick else 1500, disp))
@@ -195,6 +206,10 @@ def run(res, tier, seed, shard, nshards):
             seq_case(res, W, rng, *job[1:], ji=ji)
         elif job[0] == "outage":
             outage_case(res, W, job[1], job[2])
+        elif job[0] == "loss-with-ping-unanswered":
+            loss_with_ping_unanswered_case(res, W, *job[1:])
+        elif job[0] == "close-after-ping-timeout":
+            close_after_ping_timeout_case(res, W, *job[1:])
         elif job[0] == "open-callback-reads":
             open_callback_reads_case(res, W, *job[1:])
         elif job[0] == "header-source":
@@ -465,6 +480,86 @@ def header_source_case(res, W, fail_on, disp):
         return
     if closes != [(1000, "done")]:
         bad("on_close-before-final-ending", f"on_close calls {closes}", count=len(closes))
+
+
+def loss_with_ping_unanswered_case(res, W, how, disp, interval):
+    # pings every 1 s (first at t=2), timeout 0.4; the peer never answers the first ping and the connection ends 0.1 s after it
+    plan = [dict(outcome="ok", script=[(0.2, "frames", text("before")), (2.1, how)], pong=lambda k, t: None),
+            dict(outcome="ok", script=[(0.2, "frames", text("back")), (2.6, "close", b"\x03\xe8done")], pong=0.05)]
+    enabled = ["on_open", "on_message", "on_error", "on_close", "on_reconnect"]
+    run, out, failure, S = execute(plan, dict(reconnect=interval, ping_interval=1, ping_timeout=0.4), {}, disp, enabled)
+    res.case(("loss-with-ping-unanswered", how, disp, interval), nontrivial=True)
+    res.count("loss_with_ping_unanswered_runs")
+    res.count("runs_with_reconnect")
+    case = {"scenario": "loss-with-ping-unanswered", "loss": how, "dispatcher": disp or "builtin", "interval": interval}
+
+    def bad(kind, detail, **kw):
+        res.violation(kind, f"{how} 0.1 s after an unanswered ping (ping_timeout 0.4, reconnect={interval}, {disp or 'builtin'}): {detail}", case, dispatcher=disp or "builtin",
+                      final="server-close", **kw)
+    if run is None or failure is not None:
+        if run is None or isinstance(failure, sched.WatchdogExpired):
+            res.inconc(f"loss-with-ping-unanswered: {failure}")
+        else:
+            bad("no-return", f"{type(failure).__name__}: {str(failure)[:160]}", how=type(failure).__name__)
+        return
+    if getattr(run, "dispatch_exc", None) is not None:
+        bad("exception-escaped-into-dispatcher", f"{type(run.dispatch_exc).__name__}: {run.dispatch_exc}", exc_type=type(run.dispatch_exc).__name__, loss=how)
+        return
+    names = [n for (t, n, a, ci, ac) in run.trace]
+    if len(run.attempts) != 2 or names.count("on_reconnect") != 1:
+        bad("reconnect-missing" if len(run.attempts) < 2 else "attempt-after-final-ending",
+            f"{len(run.attempts)} connection attempts at {[round(a[0], 2) for a in run.attempts]} and {names.count('on_reconnect')} on_reconnect calls for one loss (expected 2 and 1)",
+            after=how, extra=len(run.attempts) - 2)
+        return
+    if abs(run.attempts[1][0] - (2.1 + interval)) > 0.05 + (0.5 if disp else 0):
+        bad("reconnect-timing", f"second attempt at t={run.attempts[1][0]:.2f}, loss at 2.1, interval {interval}", after=how)
+    closes = [a for (t, n, a, ci, ac) in run.trace if n == "on_close"]
+    if closes != [(1000, "done")]:
+        bad("on_close-before-final-ending", f"on_close calls {closes}", count=len(closes))
+
+
+def close_after_ping_timeout_case(res, W, disp, frac):
+    interval = 1.0
+    plan = [dict(outcome="ok", script=[(0.2, "frames", text("m"))], pong=None, answer_close=False),
+            dict(outcome="ok", script=[(0.3, "frames", text("after-close")), (40.0, "close", b"")])]
+    marks = {}
+
+    def on_error(run, app, e):
+        if "loss" in marks:
+            return
+        S = sched.CURRENT
+        marks["loss"] = S.now
+
+        def closer():
+            S.sleep(frac * interval)
+            marks["close"] = S.now
+            app.close()
+        S.spawn(closer, name="closer")
+    enabled = ["on_open", "on_message", "on_error", "on_close", "on_reconnect"]
+    run, out, failure, S = execute(plan, dict(reconnect=interval, ping_interval=1, ping_timeout=0.4), {"on_error": on_error}, disp, enabled)
+    res.case(("close-after-ping-timeout", disp, frac), nontrivial=True)
+    res.count("close_after_ping_timeout_runs")
+    res.count("runs_with_reconnect")
+    case = {"scenario": "close-after-ping-timeout", "dispatcher": disp or "builtin", "close_after_loss": frac * interval, "interval": interval}
+
+    def bad(kind, detail, **kw):
+        res.violation(kind, f"close() {frac * interval:.1f}s into the reconnect interval ({interval}s) that follows a ping timeout against a mute peer ({disp or 'builtin'}): {detail}", case,
+                      dispatcher=disp or "builtin", trigger="close-during-reconnect-sleep", **kw)
+    if run is None or failure is not None:
+        if run is None or isinstance(failure, sched.WatchdogExpired):
+            res.inconc(f"close-after-ping-timeout: {failure}")
+        else:
+            bad("no-return", f"{type(failure).__name__}: {str(failure)[:200]}", how=type(failure).__name__)
+        return
+    if "close" not in marks:
+        res.inconc("close-after-ping-timeout: the ping timeout was never reported, close() never called")
+        return
+    later = [a for a in run.attempts if a[0] > marks["close"] + 1e-9]
+    if later:
+        bad("attempt-after-own-close", f"connection attempt(s) at {[round(a[0], 2) for a in later]} after close() at t={marks['close']:.2f}", extra=len(later))
+    names = [n for (t, n, a, ci, ac) in run.trace]
+    if names.count("on_close") != 1 or names[-1] != "on_close":
+        bad("on_close-count", f"callbacks {names}", count=names.count("on_close"))
 
 
 def open_callback_reads_case(res, W, how, with_rc, disp):
